@@ -61,6 +61,18 @@ class Opaque(SV):
         return "Opaque(%s:%s)" % (self.t, self.t.sort)
 
 
+class Padded(SV):
+    """an item of a row of itertools.zip_longest: the flow value `t` (sort V) if `present`, else the fill value None.
+    Only `== <flow value>`, `== None` and `is None` are defined on it (Interp.py_eq / py_is); anything else is refused."""
+
+    def __init__(self, present, term):
+        assert present.sort == "Bool" and term.sort == "V"
+        self.present, self.t = present, term
+
+    def __repr__(self):
+        return "Padded(%s ? %s : None)" % (self.present, self.t)
+
+
 class Tup(SV):
     def __init__(self, items):
         self.items = list(items)
@@ -77,6 +89,23 @@ class Ref(SV):
 
     def __repr__(self):
         return "Ref(%s%s)" % (self.cid, "".join("[%s]" % p for p in self.path))
+
+
+class Seg(object):
+    """a symbolic stretch of a reference path into a nested dictionary: the keys arr[lo], ..., arr[hi-1] (arr: term of
+    sort (Array Int Key)).  Ref(cid, (Seg(arr, 0, n),)) is the object reached from the root by following them."""
+
+    def __init__(self, arr, lo, hi):
+        self.arr, self.lo, self.hi = arr, lo, hi
+
+    def __eq__(self, other):
+        return isinstance(other, Seg) and (self.arr.s, self.lo.s, self.hi.s) == (other.arr.s, other.lo.s, other.hi.s)
+
+    def __hash__(self):
+        return hash((self.arr.s, self.lo.s, self.hi.s))
+
+    def __repr__(self):
+        return "%s[%s:%s]" % (self.arr.s[:30], self.lo.s, self.hi.s)
 
 
 class View(SV):
